@@ -251,11 +251,11 @@ def _sequence_answer(build, seq, prog, step, exp, stop_at=None):
 
 def _history_replay_impl(ex, prog, step, exp):
     # first the recent past only (state leaking from the programs run just before is the common case, and short sequences make
-    # short counterexamples): the last 1, 8, 64, 512, 4096 programs before the latest occurrence of the failing one
+    # short counterexamples): the last 1, 8, 64, 512, 4096, 65536 programs before the latest occurrence of the failing one
     recent = list(ex.recent)
     if prog in recent:
         last = len(recent) - 1 - recent[::-1].index(prog)
-        for k in (1, 8, 64, 512, 4096):
+        for k in (1, 8, 64, 512, 4096, 65536):
             tail = recent[max(0, last - k):last + 1]
             first = _sequence_answer(ex.build, tail, prog, step, exp)
             if first is not None and _sequence_answer(ex.build, tail, prog, step, exp, stop_at=first) == first:
